@@ -24,9 +24,10 @@ func RebaseRef(baseRef string, ref string) string {
 		return ref
 	}
 
-	parts := strings.Split(ref, "#")
+	// only the first "#" separates the document from the fragment: names may contain "#"
+	parts := strings.SplitN(ref, "#", 2)
 
-	baseParts := strings.Split(baseRef, "#")
+	baseParts := strings.SplitN(baseRef, "#", 2)
 	baseURL, _ := url.Parse(baseParts[0])
 	if strings.HasPrefix(ref, "#") {
 		if baseURL.Host == "" {
